@@ -3,6 +3,7 @@ import LanceModel.C13.TableLemmas
 import LanceModel.C13.PlanLemmas
 import LanceModel.C13.IndexLemmas
 import LanceModel.C13.EndToEnd
+import LanceModel.C13.ChainLemmas
 /-
 C13 — Compaction and other rewrites never change table contents.
 
@@ -253,6 +254,16 @@ theorem remap_row_id_chain (steps : List (AddrMap × List Frag)) (T : List Frag)
     (a : Nat) (row : PRow) (hr : rowAt T a = some row) (hd : row.del = false) :
     ∃ b, remapRowId (steps.map (·.1)) a = some b ∧ rowAt (lastTable T steps) b = some row :=
   remap_chain_row steps T h a row hr hd
+
+/-- **remap_step_ok**: the map `transpose_row_addrs` builds for one compaction satisfies `StepOk` for the WHOLE table:
+    a live row of a rewritten fragment is found at its new address, a row of any other fragment stays at its address
+    (the map does not mention it).  With `remap_row_id_chain`: after any number of deferred compactions an index entry
+    written with the original address resolves to the same row. -/
+theorem remap_step_ok (T T' olds news : List Frag) (hT : WF T) (hT' : WF T') (hwo : WF olds) (hwn : WF news)
+    (holds : ∀ o ∈ olds, o ∈ T) (hnews : ∀ n ∈ news, n ∈ T')
+    (hkeep : ∀ f ∈ T, f.id ∉ olds.map Frag.id → f ∈ T') (hrows : visible news = visible olds) :
+    StepOk T T' (transpose olds news) :=
+  transpose_stepOk T T' olds news hT hT' hwo hwn holds hnews hkeep hrows
 
 /-- stopping after the first map (a seeded change the check caught) is a different function as soon as there are two
     deferred compactions of the same rows -/
